@@ -320,7 +320,7 @@ func init() {
 	fw.Register(&fw.Property{
 		ID:     "C17",
 		Run:    runC17,
-		Rule:   "seeded programs: (do + 0-3 correct multi-line top-level forms + exactly one planted fault (10 kinds: undefined symbol/function, throw of string/map, division by zero, nth out of range, type error, assert false/nil, non-callable head) wrapped to depth 0-5 in let/let-binding/if/do/fn-call/vector/map-literal/cond/and/or/->/->>/call-argument/after a multi-line raw string + 0-2 correct forms, with comments (containing brackets and quotes), blank lines and multi-line raw strings between any tokens; the fault sits directly in a top-level form or in the body of a function/closure defined in one form and called from a later one (directly, nested, through map/apply/swap!); the generator knows the line span of every top-level form and the fault's first line; a positioned error must name the module, lie within the containing top-level form and cover the fault's line (for faults reached through a higher-order builtin, the position of that builtin call is accepted as well); distinct = (fault kind, mode, wrapper chain)",
+		Rule:   "seeded programs: (do + 0-3 correct multi-line top-level forms + exactly one planted fault (10 kinds: undefined symbol/function, throw of string/map, division by zero, nth out of range, type error, assert false/nil, non-callable head) wrapped to depth 0-5 in let/let-binding/if/do/fn-call/vector/map-literal/cond/and/or/->/->>/call-argument/after a multi-line raw string + 0-2 correct forms, with comments (containing brackets and quotes), blank lines and multi-line raw strings between any tokens; the fault sits directly in a top-level form or in the body of a function/closure defined in one form and called from a later one (directly, nested, through map/apply/swap!); the generator knows the line span of every top-level form and the fault's first line; a positioned error must name the module, lie within the containing top-level form and cover the fault's line (for faults reached through a higher-order builtin, the position of that builtin call is accepted as well); distinct = (fault kind, mode, wrapper chain); faults evaluated at macro-expansion time of a macro defined in an earlier form; module names vary per reading and every fourth text is first read under another module name",
 		Assume: []string{"columns are not part of the statement", "errors without position are counted, not judged", "errors raised on other threads are excluded"},
 		Finish: func(m *fw.Merged) {
 			m.Floor("errors_with_position", 1000)
